@@ -493,25 +493,30 @@ func checkNumbering(p *Prog, r *Report, w *wireExtractor) {
 		}
 	}
 	r.Cond(okCmp, rule, "sender comparator Files[i].Wpath < Files[j].Wpath", p.Pos(do.Pos()), "")
-	// Wpath == the name written
+	// Wpath == the name written (walkFn and the helpers split out of it)
+	g := p.ModGraph()
 	okName := false
 	var nameWritten ssa.Value
-	n := 0
-	for _, b := range w.enc.Blocks {
-		for _, in := range b.Instrs {
-			if c, ok := in.(ssa.CallInstruction); ok && strings.HasSuffix(calleeName(c), ".Buffer).WriteString") {
-				n++
-				if n == 1 {
+	unit := g.unitFuncs(w.enc)
+	for _, fn := range unit {
+		for _, b := range fn.DomPreorder() {
+			for _, in := range b.Instrs {
+				if c, ok := in.(ssa.CallInstruction); ok && strings.HasSuffix(calleeName(c), ".Buffer).WriteString") && nameWritten == nil {
 					nameWritten = c.Common().Args[1]
 				}
 			}
 		}
+		if nameWritten != nil {
+			break
+		}
 	}
-	for _, b := range w.enc.Blocks {
-		for _, in := range b.Instrs {
-			if st, ok := in.(*ssa.Store); ok {
-				if _, f := fieldOfAddr(st.Addr); f == wpathF && nameWritten != nil && st.Val == nameWritten {
-					okName = true
+	for _, fn := range unit {
+		for _, b := range fn.Blocks {
+			for _, in := range b.Instrs {
+				if st, ok := in.(*ssa.Store); ok {
+					if _, f := fieldOfAddr(st.Addr); f == wpathF && nameWritten != nil && g.sameRoots(st.Val, nameWritten) {
+						okName = true
+					}
 				}
 			}
 		}
@@ -521,7 +526,7 @@ func checkNumbering(p *Prog, r *Report, w *wireExtractor) {
 	// walkFn, an append to fileList.Files is followed by the write of the entry
 	// to the connection, and no entry is written without having been appended
 	{
-		s := &Sim{Fn: w.enc, Atom: func(ssa.Value) (bool, bool) { return false, false },
+		s := &Sim{Fn: w.enc, Atom: func(ssa.Value) (bool, bool) { return false, false }, Inline: w.inlineHelpers,
 			Completed: func(ret *ssa.Return) bool {
 				v := retResults(ret)[0]
 				return isNilConst(v) || isSkipDirLoad(v)
